@@ -638,7 +638,7 @@ package bpmn
 // executeSequenceFlow: an unconditional flow is taken without evaluating anything; the evaluation itself
 // (expression engines) is unknown code: opaque events, arbitrary result.
 //@ func (*flow).executeSequenceFlow
-//@   prop C01 C04 C05
+//@   prop C01 C04 C05 C08
 //@   flag emits opaque+calls
 //@   flag countresult
 //@   ensures [unconditional-is-taken] unconditional ==> result && err == nil && evlen == old(evlen) &&
